@@ -181,6 +181,18 @@ fn main() {
             // a hung drop leaves a stuck thread behind: leave without joining it
             std::process::exit(0);
         }
+        "mt-flood" => {
+            let out_dir = PathBuf::from(arg(&args, "--out").unwrap_or("/verif/work".into()));
+            std::fs::create_dir_all(&out_dir).ok();
+            let out = mt::run_flood(
+                &out_dir,
+                arg(&args, "--seed").and_then(|s| s.parse().ok()).unwrap_or(1),
+                arg(&args, "--rounds").and_then(|s| s.parse().ok()).unwrap_or(6),
+                arg(&args, "--secs").and_then(|s| s.parse().ok()).unwrap_or(3),
+            );
+            println!("{}", serde_json::to_string(&json!({"result": out.to_json()})).unwrap());
+            std::process::exit(0);
+        }
         "forced-torn" => {
             let root = util::scratch_root();
             let dir = util::fresh_dir(&root, "torn");
